@@ -7,6 +7,7 @@
 //
 // Scenario fields (from KeepstorePut.tla's Gen configuration, plus extra kill points the check adds
 // for source labels the model does not know):
+//   ck     concretisation of corrupt_old: flip | trunc | ext | subst | empty (see vC02Corrupt)
 //   pre    none | intact_old | corrupt_old | dir (directory at the block path: rename fails)
 //          | nodir (regular file where the block directory should be: mkdir fails)
 //   n      block size in chunks of the writer's copy loop: 0 (empty), 1 (small), 3 (80 KiB)
@@ -53,6 +54,7 @@ type vC02Scn struct {
 	Mode  string `json:"mode"`
 	Point string `json:"point"`
 	Occ   int    `json:"occ"`
+	CK    string `json:"ck"` // corruption kind of pre = corrupt_old
 }
 
 type vC02Child struct {
@@ -80,10 +82,28 @@ func vC02Block(n int) []byte {
 	return b
 }
 
-func vC02Corrupt(n int) []byte {
+// vC02Corrupt concretises pre = "corrupt_old": the corruption kind ck is drawn by checks/C02.py
+//   flip   one bit flipped          trunc  a proper prefix
+//   ext    the block + appended bytes (an intact PREFIX: a comparison that stops early is fooled)
+//   subst  a different block        empty  a zero-length file
+// (for the empty block only ext and subst differ from the intact copy; others fall back to ext)
+func vC02Corrupt(n int, ck string) []byte {
 	b := append([]byte(nil), vC02Block(n)...)
+	ext := append(append([]byte(nil), b...), []byte("trailing garbage\n")...)
+	switch ck {
+	case "subst":
+		return []byte("verif C02: some other block altogether\n")
+	case "ext":
+		return ext
+	}
 	if len(b) == 0 {
-		return []byte("x")
+		return ext
+	}
+	switch ck {
+	case "trunc":
+		return b[:len(b)/2]
+	case "empty":
+		return []byte{}
 	}
 	b[len(b)/2] ^= 0x01
 	return b
@@ -94,7 +114,7 @@ func vC02Conf() vksConf {
 }
 
 // place the pre-state in dir (a volume root)
-func vC02Populate(root string, pre string, n int) {
+func vC02Populate(root string, pre string, n int, ck string) {
 	hash := vksHash(vC02Block(n))
 	bdir := filepath.Join(root, hash[:3])
 	old := time.Now().Add(-3 * time.Hour)
@@ -105,7 +125,7 @@ func vC02Populate(root string, pre string, n int) {
 		os.Chtimes(filepath.Join(bdir, hash), old, old)
 	case "corrupt_old":
 		os.MkdirAll(bdir, 0755)
-		ioutil.WriteFile(filepath.Join(bdir, hash), vC02Corrupt(n), 0644)
+		ioutil.WriteFile(filepath.Join(bdir, hash), vC02Corrupt(n, ck), 0644)
 		os.Chtimes(filepath.Join(bdir, hash), old, old)
 	case "dir":
 		os.MkdirAll(filepath.Join(bdir, hash), 0755)
@@ -124,7 +144,7 @@ func (n *vC02Notifier) CloseNotify() <-chan bool { return n.ch }
 var vC02BlockRe = regexp.MustCompile(`^[0-9a-f]{32}$`)
 
 // classify the file at the block path
-func vC02Class(root, pre string, n int) string {
+func vC02Class(root, pre string, n int, ck string) string {
 	hash := vksHash(vC02Block(n))
 	p := filepath.Join(root, hash[:3], hash)
 	fi, err := os.Lstat(p)
@@ -144,7 +164,7 @@ func vC02Class(root, pre string, n int) string {
 	if bytes.Equal(data, vC02Block(n)) {
 		return "complete"
 	}
-	if pre == "corrupt_old" && bytes.Equal(data, vC02Corrupt(n)) {
+	if pre == "corrupt_old" && bytes.Equal(data, vC02Corrupt(n, ck)) {
 		return "pre"
 	}
 	return "other"
@@ -182,11 +202,11 @@ func vC02Observe(srv *vksServer, scn *vC02Scn, log func(map[string]interface{}))
 			ns := strings.SplitN(f[0], "+", 2)
 			if len(ns) == 2 && ns[0] == hash {
 				size, err := strconv.Atoi(ns[1])
-				switch fc := vC02Class(root, scn.Pre, scn.N); {
+				switch fc := vC02Class(root, scn.Pre, scn.N, scn.CK); {
 				case err != nil:
 				case fc == "complete" && size == len(block):
 					cls = "complete"
-				case fc == "pre" && scn.Pre == "corrupt_old" && size == len(vC02Corrupt(scn.N)):
+				case fc == "pre" && scn.Pre == "corrupt_old" && size == len(vC02Corrupt(scn.N, scn.CK)):
 					cls = "pre"
 				case fc == "pre" && scn.Pre == "dir":
 					cls = "pre"
@@ -208,7 +228,7 @@ func vC02Observe(srv *vksServer, scn *vC02Scn, log func(map[string]interface{}))
 			tmpblk = true
 		}
 	}
-	log(map[string]interface{}{"ev": "dirscan", "blk": vC02Class(root, scn.Pre, scn.N), "tmpblk": tmpblk, "ntmp": ntmp})
+	log(map[string]interface{}{"ev": "dirscan", "blk": vC02Class(root, scn.Pre, scn.N, scn.CK), "tmpblk": tmpblk, "ntmp": ntmp})
 }
 
 func vC02WaitQuiet() bool {
@@ -328,7 +348,7 @@ func TestVerifC02(t *testing.T) {
 		}
 		dir, _ := ioutil.TempDir(parent, "k")
 		dirs[scn.ID] = dir
-		vC02Populate(dir, scn.Pre, scn.N)
+		vC02Populate(dir, scn.Pre, scn.N, scn.CK)
 		wg.Add(1)
 		go func(scn *vC02Scn) {
 			defer wg.Done()
@@ -348,7 +368,7 @@ func TestVerifC02(t *testing.T) {
 		events := []map[string]interface{}{}
 		log := func(ev map[string]interface{}) { events = append(events, ev) }
 		reset := map[string]interface{}{"ev": "reset", "scn": scn.ID, "pre": scn.Pre, "n": scn.N, "mode": scn.Mode,
-			"point": scn.Point, "occ": scn.Occ}
+			"point": scn.Point, "occ": scn.Occ, "ck": scn.CK}
 		log(reset)
 		log(map[string]interface{}{"ev": "start", "pre": scn.Pre})
 		block := vC02Block(scn.N)
@@ -373,7 +393,7 @@ func TestVerifC02(t *testing.T) {
 			os.RemoveAll(dirs[scn.ID])
 		default:
 			srv := vksGet(t, parent, vC02Conf())
-			vC02Populate(srv.roots[0], scn.Pre, scn.N)
+			vC02Populate(srv.roots[0], scn.Pre, scn.N, scn.CK)
 			vHookReset()
 			rec := &vC02Notifier{ResponseRecorder: httptest.NewRecorder(), ch: make(chan bool, 1)}
 			vHook.mu.Lock()
